@@ -19,6 +19,8 @@ func init() {
 	verifRegister("HarnessC06_TCPTwo", HarnessC06_TCPTwo)
 	verifRegister("HarnessC06_TCPLate1", HarnessC06_TCPLate1)
 	verifRegister("HarnessC06_Chan", HarnessC06_Chan)
+	verifRegister("HarnessC06_TCPBack", HarnessC06_TCPBack)
+	verifRegister("HarnessC06_TCPBack2", HarnessC06_TCPBack2)
 	verifRegister("HarnessC06_Relaxed", HarnessC06_Relaxed)
 	verifRegister("HarnessC06_RelaxedLate", HarnessC06_RelaxedLate)
 	verifRegister("HarnessC06_RelaxedTwo", HarnessC06_RelaxedTwo)
@@ -110,9 +112,13 @@ func c06CheckK(sent [][]c06Msg, got []tla.Value, final bool, batches bool) {
 	}
 }
 
-func c06TCP(nsenders, nsec int, late bool, rounds int) {
+func c06TCP(nsenders, nsec int, late bool, rounds int, chanSize ...int) {
+	var opts []MailboxesOption
+	if len(chanSize) > 0 {
+		opts = append(opts, WithMailboxesReceiveChanSize(chanSize[0])) // back-pressure: the receive channel holds chanSize committed batches
+	}
 	addrOf := func(idx tla.Value) (MailboxKind, string) { return MailboxesRemote, "mbox:1" }
-	recvBoxes := NewTCPMailboxes(func(idx tla.Value) (MailboxKind, string) { return MailboxesLocal, "mbox:1" })
+	recvBoxes := NewTCPMailboxes(func(idx tla.Value) (MailboxKind, string) { return MailboxesLocal, "mbox:1" }, opts...)
 	riface := c06Iface()
 	localRes, _ := recvBoxes.Index(riface, tla.MakeNumber(1))
 	local := localRes.(*tcpMailboxesLocal)
@@ -198,6 +204,11 @@ func HarnessC06_TCP()      { c06TCP(1, 2, false, 2) }
 func HarnessC06_TCPLate()  { c06TCP(2, 2, true, 1) }
 func HarnessC06_TCPTwo()   { c06TCP(2, 2, false, 1) }
 func HarnessC06_TCPLate1() { c06TCP(1, 2, true, 2) }
+
+// two senders, one section each, into a receive channel of capacity 1 and a receiver that starts late: the second
+// committed batch waits in its connection handler until the receiver makes room (back-pressure)
+func HarnessC06_TCPBack()  { c06TCP(2, 1, true, 1, 1) }
+func HarnessC06_TCPBack2() { c06TCP(2, 2, true, 1, 1) }
 
 // Go-channel resources: OutputChan -> InputChan
 func HarnessC06_Chan() {
